@@ -199,7 +199,7 @@ def _expression_as_string(expression: list[TokenT]) -> str:
         else:
             buf.append(f" {token}")
 
-    return "".join(buf).strip()
+    return "".join(buf).strip(" ")  # Only the spaces added above.
 
 
 def _tag_as_line_statement(markup: TagToken | CommentToken) -> str:
